@@ -11,7 +11,9 @@
 //! obsolete DELETEs); the decoded write sequence is what the model's `flw` line receives.
 
 mod ops;
+mod stress;
 mod world;
+mod wrapper;
 
 use ops::*;
 use std::collections::BTreeMap;
@@ -105,6 +107,9 @@ fn clip(s: &str) -> String {
 }
 
 fn run_ops(ops: &[String], model: &mut Option<ModelProc>) -> CaseOut {
+    if ops.first().is_some_and(|l| l.starts_with("wnew")) {
+        return wrapper::run_wrapper_ops(ops);
+    }
     let mut out = CaseOut::default();
     let mut w: Option<World> = None;
     for l in ops {
@@ -151,7 +156,7 @@ fn shrink_case(ops: Vec<String>, f: &Failure, model: &mut Option<ModelProc>) -> 
     shrink(
         ops,
         |cand: &[String]| {
-            if cand.is_empty() || !cand[0].starts_with("new ") {
+            if cand.is_empty() || !(cand[0].starts_with("new ") || cand[0].starts_with("wnew ")) {
                 return false;
             }
             let o = run_ops(cand, model);
@@ -169,6 +174,10 @@ fn record(report: &mut Report, out: &CaseOut, model: &mut Option<ModelProc>, lab
     report.model_compared += out.model_lines;
     let canon = out.ops.join("\n");
     report.case(&canon, out.mutated && out.answered);
+    report_failure(report, out, model, label);
+}
+
+fn report_failure(report: &mut Report, out: &CaseOut, model: &mut Option<ModelProc>, label: &str) {
     if let Some((at, f)) = &out.failure {
         let upto: Vec<String> = out.ops[..=*at].to_vec();
         let small = shrink_case(upto, f, model);
@@ -213,34 +222,107 @@ fn main() {
         }
     }
 
-    let n_cases = args.budget(8000, 1_200_000);
+    // budget: a case count and a wall-clock limit, whichever comes first (cases are a pure function
+    // of (seed, index), so a replay never depends on how far a run got)
+    let n_cases = args.budget(40_000, 1_500_000);
+    let limit_s = if args.focus.is_some() { 420 } else { args.budget(60, 1200) };
+    let deadline = std::time::Instant::now() + std::time::Duration::from_secs(limit_s);
     let threads = std::thread::available_parallelism().map(|n| n.get()).unwrap_or(4).min(16) as u64;
     let thorough = args.thorough() || args.focus.is_some();
-    let outs: Vec<Vec<(u64, CaseOut)>> = std::thread::scope(|sc| {
+    let failures = std::sync::atomic::AtomicUsize::new(0);
+    struct Agg {
+        cases: Vec<(u64, u64, bool)>,
+        hits: BTreeMap<String, u64>,
+        model_lines: u64,
+        prefixes: u64,
+        failing: Vec<(u64, CaseOut)>,
+        samples: Vec<(u64, Vec<String>)>,
+    }
+    let aggs: Vec<Agg> = std::thread::scope(|sc| {
         let hs: Vec<_> = (0..threads)
             .map(|t| {
                 let args = &args;
+                let failures = &failures;
                 sc.spawn(move || {
                     let mut model: Option<ModelProc> = if use_model { ModelProc::from_args(args) } else { None };
-                    let mut v = Vec::new();
+                    let mut a = Agg { cases: Vec::new(), hits: BTreeMap::new(), model_lines: 0, prefixes: 0, failing: Vec::new(), samples: Vec::new() };
                     let mut i = t;
                     while i < n_cases {
-                        v.push((i, run_generated(args.seed, i, thorough, &mut model)));
+                        if failures.load(std::sync::atomic::Ordering::Relaxed) >= 24 || std::time::Instant::now() > deadline {
+                            break;
+                        }
+                        // one case in 40 goes through the production wrapper (anda_db::index::BTree)
+                        let out = if i % 40 == 39 { wrapper::run_wrapper_ops(&wrapper::gen_wrapper_case(args.seed, i, thorough)) } else { run_generated(args.seed, i, thorough, &mut model) };
+                        let mut h: u64 = 0xcbf2_9ce4_8422_2325;
+                        for l in &out.ops {
+                            for b in l.bytes().chain(std::iter::once(b'\n')) {
+                                h ^= b as u64;
+                                h = h.wrapping_mul(0x0000_0100_0000_01B3);
+                            }
+                        }
+                        a.cases.push((i, h, out.mutated && out.answered));
+                        for (k, v) in &out.hits {
+                            *a.hits.entry(k.clone()).or_insert(0) += *v;
+                        }
+                        a.model_lines += out.model_lines;
+                        a.prefixes += out.prefixes_loaded;
+                        if i % 997 == 0 && a.samples.len() < 2 && out.mutated && out.answered {
+                            a.samples.push((i, out.ops.iter().take(40).cloned().collect()));
+                        }
+                        if out.failure.is_some() {
+                            failures.fetch_add(1, std::sync::atomic::Ordering::Relaxed);
+                            a.failing.push((i, out));
+                        }
                         i += threads;
                     }
-                    v
+                    a
                 })
             })
             .collect();
         hs.into_iter().map(|h| h.join().expect("worker")).collect()
     });
-    let mut all: Vec<(u64, CaseOut)> = outs.into_iter().flatten().collect();
-    all.sort_by_key(|x| x.0);
-    for (i, out) in &all {
-        if report.samples.len() < 6 && out.mutated && out.answered && i % 97 == 0 {
-            report.sample(json!({"seed": args.seed, "case": i, "ops": out.ops.iter().take(40).collect::<Vec<_>>()}));
+    let mut cases: Vec<(u64, u64, bool)> = Vec::new();
+    let mut failing: Vec<(u64, CaseOut)> = Vec::new();
+    let mut samples: Vec<(u64, Vec<String>)> = Vec::new();
+    for a in aggs {
+        cases.extend(a.cases);
+        for (k, v) in a.hits {
+            report.hit_n(&k, v);
         }
-        record(&mut report, out, &mut model, &format!("seed {} case {}", args.seed, i));
+        report.hit_n("prefix_loads", a.prefixes);
+        report.model_compared += a.model_lines;
+        failing.extend(a.failing);
+        samples.extend(a.samples);
+    }
+    cases.sort_unstable();
+    for (_, h, nontrivial) in &cases {
+        report.case(&format!("{h:016x}"), *nontrivial);
+    }
+    report.hit_n("generated_cases", cases.len() as u64);
+    samples.sort();
+    for (i, ops) in samples.into_iter().take(4) {
+        report.sample(json!({"seed": args.seed, "case": i, "ops": ops}));
+    }
+    failing.sort_by_key(|x| x.0);
+    for (n, (i, out)) in failing.iter().enumerate() {
+        if n < 6 {
+            report_failure(&mut report, out, &mut model, &format!("seed {} case {}", args.seed, i));
+        } else {
+            report.hit("failures_not_shrunk");
+        }
+    }
+    if (cases.len() as u64) < n_cases {
+        report.notes.push(format!("stopped after {} of {} cases (time limit {limit_s}s or enough failures)", cases.len(), n_cases));
+    }
+    // real threads, no hooks: measured, not proved
+    if args.replay.is_none() {
+        let so = stress::stress(args.seed, args.budget(600, 20000), 3);
+        report.measured.insert("thread_stress_runs(3 mutator threads + 1 compaction thread, disjoint ids per thread)".into(), json!(so.runs));
+        report.measured.insert("thread_stress_ops".into(), json!(so.ops));
+        report.measured.insert("thread_stress_compactions".into(), json!(so.compactions));
+        if let Some((what, e, o, logs)) = so.failure {
+            report.oracle_failure("threads", &format!("{what} (real threads; not deterministically replayable)"), &logs, &e, &o);
+        }
     }
     report.notes.push("measured only: real threads / interleavings are not exercised (hooks H1/H2 absent); see notes/C10.md".into());
     report.write(&args);
